@@ -11,6 +11,7 @@ import (
 	"sort"
 	"strings"
 	"sync"
+	"time"
 
 	"github.com/honeycombio/refinery/config"
 	"github.com/honeycombio/refinery/internal/peer"
@@ -77,8 +78,21 @@ func (d fxDef) isThroughput() bool {
 	return d.Type == "totalthroughput" || d.Type == "emathroughput" || d.Type == "windowedthroughput"
 }
 
-// param returns the value of a named tuning parameter (nil when not set).
+// param returns the value of a named tuning parameter as the oracle compares
+// it: nil when not set, and also nil for a duration written as an explicit zero
+// ("0s"), which is the same configuration as leaving it out.
 func (d fxDef) param(name string) any {
+	v := d.rawParam(name)
+	if sv, ok := v.(string); ok {
+		if dur, err := time.ParseDuration(sv); err == nil && dur == 0 {
+			return nil
+		}
+	}
+	return v
+}
+
+// rawParam returns the value as written to the rules file (nil = not written).
+func (d fxDef) rawParam(name string) any {
 	switch name {
 	case "ClearFrequency":
 		if d.ClearFrequency != "" {
@@ -132,40 +146,53 @@ func (d fxDef) param(name string) any {
 	return nil
 }
 
-// setParam sets tuning parameter name to its idx-th non-default value (idx 1 or 2).
+// setParam sets tuning parameter name to one of its non-default values:
+// idx 1, 2 = ordinary values; 3 = a value refinery's validator accepts but the
+// samplers normalise (negative duration / negative count); 4 = an explicit zero
+// duration (same configuration as unset). Parameters without an odd value fall
+// back to an ordinary one.
 func (d *fxDef) setParam(name string, idx int) {
-	pick := func(a, b any) any {
-		if idx <= 1 {
-			return a
+	pick := func(vals ...any) any {
+		i := idx - 1
+		if i < 0 {
+			i = 0
 		}
-		return b
+		if i >= len(vals) {
+			i = (idx - 1) % 2
+		}
+		return vals[i]
 	}
 	switch name {
 	case "ClearFrequency":
-		d.ClearFrequency = pick("10s", "1m0s").(string)
+		d.ClearFrequency = pick("10s", "1m0s", "-10s", "0s").(string)
 	case "MaxKeys":
-		d.MaxKeys = pick(100, 1000).(int)
+		d.MaxKeys = pick(100, 1000, -5).(int)
 	case "UseTraceLength":
 		d.UseTraceLength = true
 	case "UseClusterSize":
 		d.UseClusterSize = true
 	case "AdjustmentInterval":
-		d.AdjustmentInterval = pick("5s", "20s").(string)
+		d.AdjustmentInterval = pick("5s", "20s", "-5s", "0s").(string)
 	case "Weight":
 		d.Weight = pick(0.25, 0.75).(float64)
 	case "AgeOutValue":
 		d.AgeOutValue = pick(0.25, 0.75).(float64)
 	case "BurstMultiple":
-		d.BurstMultiple = pick(3.0, 5.0).(float64)
+		d.BurstMultiple = pick(3.0, 5.0, -2.0).(float64)
 	case "BurstDetectionDelay":
 		d.BurstDetectionDelay = pick(5, 7).(int)
 	case "InitialSampleRate":
-		d.InitialSampleRate = pick(5, 20).(int)
+		d.InitialSampleRate = pick(5, 20, -3).(int)
 	case "UpdateFrequency":
-		d.UpdateFrequency = pick("2s", "5s").(string)
+		d.UpdateFrequency = pick("2s", "5s", "-2s", "0s").(string)
 	case "LookbackFrequency":
-		d.LookbackFrequency = pick("20s", "40s").(string)
+		d.LookbackFrequency = pick("20s", "40s", "-20s", "0s").(string)
 	}
+}
+
+// fxDrawPval draws the value index for setParam: mostly ordinary values.
+func fxDrawPval(t *rapid.T, label string) int {
+	return rapid.SampledFrom([]int{1, 2, 1, 2, 3, 3, 4}).Draw(t, label)
 }
 
 func fxSortedFields(f []string) []string {
@@ -213,7 +240,7 @@ func (d fxDef) yamlBody() map[string]any {
 	}
 	m["FieldList"] = append([]string(nil), d.Fields...)
 	for _, p := range fxTuning[d.Type] {
-		if v := d.param(p); v != nil {
+		if v := d.rawParam(p); v != nil {
 			m[p] = v
 		}
 	}
@@ -477,6 +504,6 @@ func fxGenTweaks(t *rapid.T, label string, d *fxDef) {
 	params := fxTuning[d.Type]
 	for i := 0; i < n; i++ {
 		p := rapid.SampledFrom(params).Draw(t, label+"/param")
-		d.setParam(p, rapid.IntRange(1, 2).Draw(t, label+"/pval"))
+		d.setParam(p, fxDrawPval(t, label+"/pval"))
 	}
 }
